@@ -61,7 +61,7 @@ def inits(f):
 
 def run_cfg(rep, f, c):
     I = inits(f)
-    rep.floor('C20-D1', 'Encoding *_INIT statics', len(I), 40, c)
+    rep.floor('C20-D1', 'Encoding *_INIT statics', len(I), 40, c, exact=True)
     rep.ob('C20-D1.count', 'instances', len(I) == 40, 'the Standard defines 40 encodings (incl. x-user-defined, replacement); found %d' % len(I), None, {'count': len(I)}, c)
     names = {}
     for st, (name, var) in sorted(I.items()):
@@ -228,7 +228,7 @@ def run_cfg(rep, f, c):
         rep.ob('C20-D3.link', 'decoder max_utf16_buffer_length identity', one == ['single_byte::SingleByteDecoder::max_utf16_buffer_length', 'x_user_defined::UserDefinedDecoder::max_utf16_buffer_length'],
                'decoders whose UTF-16 length query is the identity: %r; expected exactly the single-byte and x-user-defined decoders' % one, None,
                {'identity': one, 'decoders': len(ident)}, c)
-        rep.floor('C20-D3.link', 'variant decoders', len(ident), 11, c)
+        rep.floor('C20-D3.link', 'variant decoders', len(ident), 11, c, exact=True)
     # D4 identity semantics
     eqb = f.body('<Encoding as core::cmp::PartialEq>::eq')
     if eqb is None:
